@@ -319,6 +319,14 @@ def check(repo: Repo, run: Run) -> None:
     for k, v in ret.a[2]:
         if k != "**":
             stores.append((const(k), v, ()))
+    def _norm(cond):
+        # `not ('k' not in event)` is `'k' in event`: conditions are compared as (atom, polarity)
+        out = []
+        for c, p_ in cond:
+            atom, pol = render.norm_bool(c)
+            out.append((atom, p_ if pol else not p_))
+        return tuple(out)
+    stores = [(k, v, _norm(cond)) for k, v, cond in stores]
     fields = dict(ci.fields)
     declared = list(fields)
     run.analysed.update({"declared_fields": len(declared), "stores": len(stores)})
